@@ -174,6 +174,9 @@ func (e *Engine) clauseActive(c *Clause) bool {
 			}
 			continue
 		}
+		if t == "cut" {
+			continue
+		}
 		hasProp = true
 		if t == e.opts.Prop || e.opts.Prop == "" {
 			propOK = true
@@ -754,6 +757,9 @@ func (e *Engine) VerifyFunc(fn *ssa.Function) (vc *VC) {
 		for _, r := range fc.Requires {
 			if e.clauseActive(r) {
 				pres = append(pres, f.transBool(r.Expr, env))
+				if r.Kind == "relies" {
+					vc.note("assumed history precondition (relies, not checked at call sites): " + r.Text)
+				}
 			}
 		}
 		st.alive = vc.define("pre", "Bool", and(pres...))
@@ -894,6 +900,11 @@ func (e *Engine) VerifyFunc(fn *ssa.Function) (vc *VC) {
 			g := f.transBool(en.Expr, env)
 			st2 := rst.clone()
 			f.obligeClause(st2, "post", en.Text, g, en, r.instr.Pos())
+			if en.HasTag("cut") {
+				// proved (own obligation above), then available to the ensures
+				// clauses that follow it at this return: a lemma step
+				f.assume(rst, g)
+			}
 		}
 		if e.noSwallowActive(fc) {
 			f.noSwallowAt(rst, r)
